@@ -939,10 +939,10 @@ def _resume_inside(s, case, top):
 
 SUBS = [
     Sub("faults_all_writers", exec_faults, enumerate=enum_fault_cases, exhaustive=True),
-    Sub("faults", exec_faults, strategy=fault_cases(), quick=48, thorough=4000, shards_quick=16),
-    Sub("faults_zip", exec_faults, strategy=zip_fault_cases(), quick=16, thorough=1500, shards_quick=8),
-    Sub("resume_inside", exec_resume_inside, strategy=resume_inside_cases(), quick=12, thorough=800, shards_quick=4),
-    Sub("resume", exec_resume, strategy=resume_cases(), quick=24, thorough=1600, shards_quick=12),
+    Sub("faults", exec_faults, strategy=fault_cases(), quick=48, thorough=1600, shards_quick=16),
+    Sub("faults_zip", exec_faults, strategy=zip_fault_cases(), quick=16, thorough=600, shards_quick=8),
+    Sub("resume_inside", exec_resume_inside, strategy=resume_inside_cases(), quick=12, thorough=300, shards_quick=4),
+    Sub("resume", exec_resume, strategy=resume_cases(), quick=24, thorough=640, shards_quick=12),
 ]
 
 KNOWN_PREDICATES = {}
